@@ -23,6 +23,20 @@ fn check(acc: &mut Acc, reg: &Registry, s: &dyn Subject, case: &Case, src: Sourc
     }
     acc.add("reports_checked_against_payload", run.reports().count() as u64);
     acc.add("handovers_checked", run.merges().count() as u64);
+    if script != Script::Continue && unique_keys(&case.payload) {
+        // B(iii): under ANY answers, hand-overs stay on the positions the types require, deepest first
+        let seen = if src == Source::Json { vcore::Ov::from_json(&case.payload.to_json()) } else { case.payload.clone() };
+        let pred = refmodel::interp(&reg.defs, s.ty(), &seen);
+        if let Some(d) = handover_chain(&pred, &run) {
+            let at = ctor_at(reg, s, &case.payload, &d.loc);
+            acc.violation(
+                format!("C04/{}/{}", d.rule, at),
+                d.rule,
+                witness(s, &case.payload, src, &script, &run, json!({"what": d.detail, "container_of_location": at})),
+            );
+        }
+        acc.count("handover_chains_checked_under_stop_answers");
+    }
     if with_model && script == Script::Continue {
         let pred = refmodel::interp(&reg.defs, s.ty(), &case.payload);
         if let Some(d) = compare_handovers(&pred, &run) {
@@ -56,8 +70,10 @@ pub fn run(ctx: &Ctx, reg: &Registry) -> i32 {
                 check(&mut acc, reg, s, &case, Source::Ov, Script::Break, false);
                 check(&mut acc, reg, s, &case, Source::Ov, Script::Bits(ctx.seed ^ i), false);
                 check(&mut acc, reg, s, &case, Source::Ov, Script::Coin(ctx.seed ^ i), false);
-                let pols = policies();
-                check(&mut acc, reg, s, &case, Source::Ov, pols[(i as usize) % pols.len()].clone(), false);
+                for pol in policies() {
+                    check(&mut acc, reg, s, &case, Source::Ov, pol, false);
+                }
+                check(&mut acc, reg, s, &case, Source::Ov, Script::BreakFrom((i % 5) as u32), false);
                 if case.payload.json_representable() {
                     check(&mut acc, reg, s, &case, Source::Json, Script::Continue, true);
                 }
@@ -101,7 +117,7 @@ pub fn run(ctx: &Ctx, reg: &Registry) -> i32 {
         acc,
         Finish {
             level: "exploration",
-            rule: "oracle A (self-contained): every report of every run is resolved in the original payload — location exists; `actual` IS the node there (node identity through the instrumented source, equality through serde_json) and its kind is not accepted; missing field really absent; unknown key really present and not accepted; unknown value is the string there; arity differs. Oracle B(i): every hand-over location resolves and is an ancestor-or-self of every report handed over. Oracle B(ii) (keep-going run, vs the reference model): per report the SET of hand-over locations equals the element positions on its path. Workloads: random multi-fault payloads under 4 answer scripts and both sources; systematically, each of 8 intruder values at EVERY position of valid payloads (single and paired faults). Non-trivial = at least one report; distinct = (subject, fault signature, trace shape).".into(),
+            rule: "oracle A (self-contained): every report of every run is resolved in the original payload — location exists; `actual` IS the node there (node identity through the instrumented source, equality through serde_json) and its kind is not accepted; missing field really absent; unknown key really present and not accepted; unknown value is the string there; arity differs. Oracle B(i): every hand-over location resolves and is an ancestor-or-self of every report handed over. Oracle B(ii) (keep-going run, vs the reference model): per report the SET of hand-over locations equals the element positions on its path. Oracle B(iii) (every other script: always-Break, BreakFrom(k), random, and 9 answer policies by kind of decision): every hand-over of a report is at one of those positions and the first one at the deepest (the child's own position). Workloads: random multi-fault payloads under 4 answer scripts and both sources; systematically, each of 8 intruder values at EVERY position of valid payloads (single and paired faults). Non-trivial = at least one report; distinct = (subject, fault signature, trace shape).".into(),
             exhaustive: false,
             assumptions: vec!["payload keys are unique in this workload so that a location names one node".into()],
         },
